@@ -60,7 +60,7 @@ func genBattle(t *rapid.T, maxW int, bigOffsets bool) battleCase {
 	}
 	if maxW >= 3 && gen.Rare(t, "manywarriors", 6) {
 		// melees: more warriors than fit a machine word or a small fixed table
-		n = rapid.SampledFrom([]int{17, 20, 33, 64, 65, 66, 100}).Draw(t, "nmany")
+		n = rapid.SampledFrom([]int{17, 20, 33, 64, 65, 66, 100, 129, 130, 257, 300}).Draw(t, "nmany")
 		maxLen = 2
 		if m < 2*n {
 			m = 2*n + rapid.IntRange(0, 40).Draw(t, "mmany")
